@@ -30,6 +30,7 @@ Rewrite rules (closed list, every application logged with source line):
   D2  `let _timer = ScopedTimer::new(..);` and `metrics::<m>!(..)...;` statements dropped
   D3  `async` keyword and `.await` suffixes dropped
   D5  error payloads: `Err(<constructor/format!/into()>)` -> `Err(VErr)`, `.map_err(..)` dropped
+  D6  statements under `#[cfg(test)]` (test-only notifications) dropped
   R1  the return value is named: `-> Ty` becomes `-> (ret: Ty)`
   N1  `for (&a, &b) in E {B}` / `for (a, b) in E` -> `for __kv in E { let a = *__kv.0; ... }`
   N2  leading `if C { continue; }` in a `for` body -> `if !(C) { rest }`
@@ -366,7 +367,7 @@ def rule_D1_D2(src, lo, hi, relfile, log, enabled):
             if i >= 2 and toks[i - 1].text == "::" and toks[i - 2].text == "tracing":
                 start_i = i - 2
             c = match_close(toks, i + 2)
-            inner = src[toks[i + 2].end:toks[c].start]
+            inner = " ".join(x.text for x in toks[i + 3:c] if x.kind != "str").replace(" . ", ".").replace(" (", "(")
             if SIDE_EFFECT_RE.search(inner):
                 raise VxError("D1: macro argument may have side effects at %s:%d" % (relfile, line_of(src, t.start)))
             prev = toks[start_i - 1].text if start_i > 0 else ""
@@ -405,6 +406,30 @@ def rule_D1_D2(src, lo, hi, relfile, log, enabled):
                 j += 1
             s, e = _strip_stmt_ws(src, t.start, toks[j].end)
             out.append(("D2", s, e, ""))
+            i = j + 1
+            continue
+        i += 1
+    return out
+
+
+def rule_D6(src, lo, hi, enabled):
+    """statements guarded by #[cfg(test)] are not part of the production build: dropped"""
+    out = []
+    if "D6" not in enabled:
+        return out
+    toks = code_toks(tokenize(src[lo:hi], lo))
+    n = len(toks)
+    i = 0
+    while i + 6 < n:
+        if toks[i].text == "#" and toks[i + 1].text == "[" and toks[i + 2].text == "cfg" and toks[i + 3].text == "(" \
+                and toks[i + 4].text == "test" and toks[i + 5].text == ")" and toks[i + 6].text == "]":
+            j = i + 7
+            while j < n and toks[j].text != ";":
+                if toks[j].text in OPEN:
+                    j = match_close(toks, j)
+                j += 1
+            s0, e0 = _strip_stmt_ws(src, toks[i].start, toks[min(j, n - 1)].end)
+            out.append(("D6", s0, e0, ""))
             i = j + 1
             continue
         i += 1
@@ -1036,7 +1061,7 @@ def loop_headers(body):
 # --------------------------------------------------------------------------------------
 # vspec processing
 # --------------------------------------------------------------------------------------
-ALL_RULES = ["D1", "D2", "D3", "D5", "R1", "N1", "N2", "N3", "N4", "N5", "N6"]
+ALL_RULES = ["D1", "D2", "D3", "D5", "D6", "R1", "N1", "N2", "N3", "N4", "N5", "N6"]
 KV_RE = re.compile(r'(\w+)=("([^"]*)"|\S+)')
 
 
@@ -1284,6 +1309,7 @@ class Gen:
         edits += rule_D1_D2(src, lo, hi, rel, self.log, enabled)
         edits += rule_D3(src, lo, hi, enabled)
         edits += rule_D5(src, lo, hi, enabled)
+        edits += rule_D6(src, lo, hi, enabled)
         edits += rule_N1(src, lo, hi, enabled)
         edits += rule_N2(src, lo, hi, enabled)
         edits += rule_N3(src, lo, hi, enabled)
